@@ -34,8 +34,9 @@ class RequestChannelRequester(RequestChannelCommon, Requester):
 
     def subscribe(self, subscriber: Subscriber):
         self.setup()
-        super().subscribe(subscriber)
+        # the request frame goes first: on_subscribe() may already call request(n) or cancel()
         self._send_channel_request(self._payload)
+        super().subscribe(subscriber)
 
         if self._publisher is None:
             self.mark_completed_and_finish(sent=True)
